@@ -71,6 +71,17 @@ Theorem C13_annual_gate_holds_between_ubi_records_of_one_block : forall cf s dt 
 Proof. exact block_ubi_gate_lemma. Qed.
 Print Assumptions C13_annual_gate_holds_between_ubi_records_of_one_block.
 
+(* a genesis export / wipe / import leaves supply, registry, UBI records, pools, parameters and the
+   annual gate where they were (the harness replays real round trips inside the histories; the checker's
+   own record of the year start carries across, so an allowance re-opened by a round trip is a violation) *)
+Theorem C13_genesis_round_trip_is_identity : forall s,
+  nat_supply (genesis_roundtrip s) = nat_supply s /\ s_reg (genesis_roundtrip s) = s_reg s /\ s_bank (genesis_roundtrip s) = s_bank s
+  /\ s_ubis (genesis_roundtrip s) = s_ubis s /\ s_pools (genesis_roundtrip s) = s_pools s /\ s_params (genesis_roundtrip s) = s_params s
+  /\ sn_time (s_ysnap (genesis_roundtrip s)) = sn_time (s_ysnap s) /\ sn_time (s_psnap (genesis_roundtrip s)) = sn_time (s_psnap s)
+  /\ (forall m sup now, inflation_possible (s_ysnap (genesis_roundtrip s)) m sup now = inflation_possible (s_ysnap s) m sup now).
+Proof. exact genesis_roundtrip_identity. Qed.
+Print Assumptions C13_genesis_round_trip_is_identity.
+
 (* ================================================================== UBI *)
 (* A UBI record is accepted only if the yearly total of all records stays within the hard cap. *)
 Theorem C13_ubi_within_hardcap_on_this_tree :
@@ -233,7 +244,8 @@ Print Assumptions C13_mint_sites_sanctioned.
 (* ================================================================== the spec checker and the model *)
 (* chk_sound, ALL clauses: the decidable checker that is run on the REAL observations
    (Model/C13Check.v check_step: infl_target, annual_gate, ubi_gate, ubi_mints, ubi_payout, snapshot, reg_tracks, origin,
-   ubi_cap, ubi_record, reject, gate, owner_only, owner_cap, cap, cap_hist) accepts every step of the
+   ubi_cap, ubi_record, reject, gate, owner_only, owner_cap, cap, cap_hist, genesis_fails, genesis_supply,
+   genesis_snapshots, genesis_ubi, genesis_registry) accepts every step of the
    model with the five guards in the repaired shape, from every well-formed state ([inv]: what x/gov
    validation, the bank and the block clock guarantee) and checker state agreeing with it ([rel]);
    and the next checker state agrees with the next model state.  So on a repaired tree no clause can
